@@ -323,7 +323,7 @@ PROPS["C17"] = {
 
 PROPS["C09"] = {
     "level": "proof",
-    "verus": [{"unit": "strings", "rlimit": 200}],
+    "verus": [{"unit": "strings", "rlimit": 200}, {"unit": "typed_de", "rlimit": 300}],
     "kani": K_UNICODE + K_STRTAB + K_BLOCK,
     "trusted_base": [T1, T2, T3, T4, T6, T8, VSTD, KANI, PERR,
                      "parse_string_escaped / parse_escaped_char (raw writes into Vec spare capacity) and parse_string_inplace (in-place compaction over the padded buffer) are NOT under contract: their acceptance contract is assumed where callers need it",
